@@ -388,6 +388,51 @@ CANONICAL_PATHS = (
 )
 
 
+def canonicalise_containers(text, j):
+    """Standard containers that differ only in representation are presented as one: an ordered map is a map
+    (`BTreeMap` -> `HashMap`: the rules use get / insert / contains_key / keys / len, never the iteration order of a
+    HashMap), a shared or boxed slice of strings is a list of strings (`Arc<[String]>`, `Rc<[String]>`, `Box<[String]>` ->
+    `Vec<String>`), and a `Box` around a LOCAL struct or enum is that value (`Option<Box<Cached>>` -> `Option<Cached>`;
+    boxes of trait objects — the stored callables — stay)."""
+    import re
+    if j.get("crate") != "varpro":
+        return text
+    text = text.replace("std::collections::BTreeMap", "std::collections::HashMap").replace("std::collections::btree_map::", "std::collections::hash_map::")
+    S = "std::string::String"
+    for w in ("std::sync::Arc<[%s]>" % S, "std::rc::Rc<[%s]>" % S, "std::boxed::Box<[%s]>" % S,
+              "std::sync::Arc<[%s], std::alloc::Global>" % S, "std::boxed::Box<[%s], std::alloc::Global>" % S):
+        text = text.replace(w, "std::vec::Vec<%s>" % S)
+    local = sorted((a["path"] for a in j.get("adts", [])), key=len, reverse=True)
+    if "std::boxed::Box<" in text and local:
+        out, i = [], 0
+        key = "std::boxed::Box<"
+        while True:
+            k = text.find(key, i)
+            if k < 0:
+                out.append(text[i:])
+                break
+            out.append(text[i:k])
+            # balanced argument list
+            depth, m = 0, k + len(key) - 1
+            while m < len(text):
+                if text[m] == "<":
+                    depth += 1
+                elif text[m] == ">" and text[m - 1] != "-":
+                    depth -= 1
+                    if depth == 0:
+                        break
+                m += 1
+            args = _split_top(text[k + len(key):m])
+            first = args[0] if args else ""
+            if any(first == p_ or first.startswith(p_ + "<") for p_ in local):
+                out.append(first)
+            else:
+                out.append(text[k:m + 1])
+            i = m + 1
+        text = "".join(out)
+    return text
+
+
 def canonicalise_paths(text, j):
     """rename moved definitions to their canonical paths in the raw fact text; returns (text, {actual: canonical})"""
     import re
@@ -668,12 +713,20 @@ def flatten_group_structs(j):
                 if f.get("adt") in cands and f["adt"] != p_:
                     uses.setdefault(f["adt"], []).append((p_, v["name"], f["name"], f["ty"]))
     groups = {}
+    vgroups = {}     # (enum path, variant name) -> group: a tuple variant whose only field is a grouping struct is the struct-like variant
     for g, us in uses.items():
-        if len(us) != 1 or adts[us[0][0]].get("kind") != "Struct":
+        if len(us) != 1:
             continue
         owner, _v, fname, fty = us[0]
         if fty.split("<", 1)[0] != g:
             continue      # Option<Group>, Vec<Group> … : not a plain grouping
+        if adts[owner].get("kind") == "Enum":
+            var = [v for v in adts[owner]["variants"] if v["name"] == _v][0]
+            if len(var["fields"]) == 1 and fname == "0" and owner not in canon or (len(var["fields"]) == 1 and fname == "0"):
+                vgroups[(owner, _v)] = g
+            continue
+        if adts[owner].get("kind") != "Struct":
+            continue
         # the group type must not appear in signatures of functions outside its own impls (then it is an interface type)
         ok = True
         for b in j.get("bodies", []):
@@ -685,9 +738,23 @@ def flatten_group_structs(j):
                 ok = False
         if ok:
             groups[(owner, fname)] = g
-    if not groups:
+    # interface check for variant groups as well
+    for (owner, vn), g in list(vgroups.items()):
+        for b in j.get("bodies", []):
+            st = (b.get("impl") or {}).get("self_adt") or ""
+            if st == g:
+                continue
+            sig = " ".join(b.get("inputs", []) or []) + " " + (b.get("output") or "")
+            if g in sig:
+                vgroups.pop((owner, vn), None)
+                break
+    if not groups and not vgroups:
         return {}
-    gfields = {g: [f for f in adts[g]["variants"][0]["fields"]] for g in groups.values()}
+    gfields = {g: [f for f in adts[g]["variants"][0]["fields"]] for g in list(groups.values()) + list(vgroups.values())}
+    for (owner, vn), g in vgroups.items():
+        for v in adts[owner]["variants"]:
+            if v["name"] == vn:
+                v["fields"] = [dict(gf) for gf in gfields[g]]
     # owner ADT entries
     for (owner, fname), g in groups.items():
         for v in adts[owner]["variants"]:
@@ -704,6 +771,36 @@ def flatten_group_structs(j):
 
     def walk(o):
         if isinstance(o, dict):
+            if o.get("k") == "agg" and o.get("agg") == "adt" and (o.get("adt"), o.get("variant")) in vgroups and o.get("fields") == ["0"]:
+                g = vgroups[(o["adt"], o["variant"])]
+                op = o["ops"][0]
+                if op.get("k") in ("move", "copy") and "place" in op:
+                    o["fields"] = [gf["name"] for gf in gfields[g]]
+                    o["ops"] = [{"k": "copy", "place": {"l": op["place"]["l"], "proj": list(op["place"]["proj"]) + [{"k": "field", "name": gf["name"], "ty": gf["ty"], "owner": g}]}}
+                                for gf in gfields[g]]
+            if "proj" in o and "l" in o and vgroups:
+                pr = o["proj"]
+                out = []
+                i = 0
+                while i < len(pr):
+                    e = pr[i]
+                    if e.get("k") == "downcast" and i + 2 < len(pr) + 0 and i + 1 < len(pr) and pr[i + 1].get("k") == "field" and pr[i + 1].get("name") == "0" \
+                            and (pr[i + 1].get("owner"), e.get("variant")) in vgroups:
+                        g = vgroups[(pr[i + 1]["owner"], e["variant"])]
+                        out.append(e)
+                        if i + 2 < len(pr) and pr[i + 2].get("k") == "field" and pr[i + 2].get("owner") == g:
+                            n = dict(pr[i + 2])
+                            n["owner"] = pr[i + 1]["owner"]
+                            out.append(n)
+                            i += 3
+                            continue
+                        # the whole payload is read: leave the projection (the evaluator normalises `.0.name` below)
+                        out.append(pr[i + 1])
+                        i += 2
+                        continue
+                    out.append(e)
+                    i += 1
+                o["proj"] = out
             if o.get("k") == "agg" and o.get("agg") == "adt":
                 for (owner, fname), g in groups.items():
                     if o.get("adt") == owner and fname in o.get("fields", []):
@@ -741,6 +838,9 @@ def flatten_group_structs(j):
                 walk(x)
     for b in j.get("bodies", []):
         walk(b)
+    groups = dict(groups)
+    for (owner, vn), g in vgroups.items():
+        groups[(owner + "::" + vn, "0")] = g
     return groups
 
 
@@ -751,14 +851,15 @@ class Facts:
             with open(path_or_json) as f:
                 text = f.read()
             j = json.loads(text)
-            text2, ren = canonicalise_paths(text, j)
-            if ren:
+            text1 = canonicalise_containers(text, j)
+            text2, ren = canonicalise_paths(text1, j)
+            if ren or text1 is not text:
                 j = json.loads(text2)
                 self.renamed = ren
         else:
             j = path_or_json
         self.groups = flatten_group_structs(j) if j.get("crate") == "varpro" else {}
-        self.group_fields = set(fn for (_o, fn) in self.groups)
+        self.group_fields = set(fn for (_o, fn) in self.groups if not fn.isdigit())
         self.option_like = present_option_like_enums(j) if j.get("crate") == "varpro" else {}
         self.newtypes = erase_newtypes(j) if j.get("crate") == "varpro" else {}
         self.j = j
